@@ -104,6 +104,44 @@ func c09AlgAtom(info *types.Info, e ast.Expr, isTok func(ast.Expr) bool) (neg, o
 	return false, false
 }
 
+// c09IsLiteralValue reports whether e is a constant or a literal / conversion of
+// one ([]byte("secret"), "x", 42).
+func c09IsLiteralValue(info *types.Info, e ast.Expr) bool {
+	e = ast.Unparen(e)
+	if tv, ok := info.Types[e]; ok && tv.Value != nil {
+		return true
+	}
+	switch x := e.(type) {
+	case *ast.BasicLit, *ast.CompositeLit:
+		return true
+	case *ast.CallExpr:
+		if tv, ok := info.Types[x.Fun]; ok && tv.IsType() && len(x.Args) == 1 {
+			return c09IsLiteralValue(info, x.Args[0])
+		}
+	}
+	return false
+}
+
+// c09Closure returns f and the same-package functions reachable from it through
+// statically resolved calls (helpers, closures, methods).
+func c09Closure(f *kit.Func) []*kit.Func {
+	out := []*kit.Func{f}
+	seen := map[*kit.Func]bool{f: true}
+	for i := 0; i < len(out); i++ {
+		g := out[i]
+		if g.Body == nil {
+			continue
+		}
+		for _, call := range g.AllCalls(true) {
+			if cf := g.CalleeFunc(call); cf != nil && cf.Pkg == f.Pkg && !seen[cf] {
+				seen[cf] = true
+				out = append(out, cf)
+			}
+		}
+	}
+	return out
+}
+
 func c09JWT(c *kit.Ctx, a *c09Anchors) {
 	r3 := c.Rule("R3", "JWT validation conjuncts, key agreement, issuance parameters", 7)
 
@@ -125,6 +163,14 @@ func c09JWT(c *kit.Ctx, a *c09Anchors) {
 		}
 		algInKey := false // the key function only hands out the key for HS256
 		fl := newC09Flow(f)
+		fl.inline = func(cf *kit.Func, call *ast.CallExpr) bool {
+			for _, p := range a.parseFns {
+				if p == cf {
+					return false
+				}
+			}
+			return true
+		}
 		fl.roles = func(call *ast.CallExpr) []string {
 			if call == parse {
 				return []string{"jtok", "perr"}
@@ -143,11 +189,23 @@ func c09JWT(c *kit.Ctx, a *c09Anchors) {
 			if neg, ok := c09AlgAtom(info, e, func(z ast.Expr) bool { return isTok(z, s) }); ok {
 				return "alg", neg, true
 			}
+			// the algorithm compared with another constant: a test, but not the required one
+			if x, y, op, ok := kit.CmpAtom(e); ok && (op == token.EQL || op == token.NEQ) {
+				for i := 0; i < 2; i++ {
+					if call, isCall := ast.Unparen(x).(*ast.CallExpr); isCall && c09IsJWT(kit.Callee(info, call), "Alg") {
+						if v, isC := kit.ConstString(info, y); isC && v != "HS256" {
+							return "algother:" + v, op == token.NEQ, true
+						}
+					}
+					x, y = y, x
+				}
+			}
 			return "", false, false
 		}
 		// the token is nil when Parse fails on a malformed string: it may only be
 		// dereferenced (outside short-circuit conditions) once the error is known nil
 		derefBad := ""
+		derefMurky := false
 		fl.onNode = func(n ast.Node, s kit.S) kit.S {
 			switch n.(type) {
 			case *ast.ReturnStmt:
@@ -161,6 +219,10 @@ func c09JWT(c *kit.Ctx, a *c09Anchors) {
 					return false
 				}
 				if sel, ok := x.(*ast.SelectorExpr); ok && isTok(sel.X, s) && derefBad == "" {
+					if s.Get("a:perr") == "" && s.Get("opq:perr") == "1" {
+						derefMurky = true
+						return true
+					}
 					derefBad = "`" + f.Str(sel) + "` at " + f.At(sel) + " dereferences the parsed token although jwt.Parse may have failed (nil token for a malformed string: panic instead of a refusal)"
 				}
 				return true
@@ -189,7 +251,7 @@ func c09JWT(c *kit.Ctx, a *c09Anchors) {
 			for _, p := range kf.Params() {
 				if pt, ok := p.Type().(*types.Pointer); ok {
 					if n, ok := types.Unalias(pt.Elem()).(*types.Named); ok && n.Obj().Pkg() != nil && strings.HasPrefix(n.Obj().Pkg().Path(), c09JWTPfx) && n.Obj().Name() == "Token" {
-						kinit = kinit.Set("bv:"+kit.VarID(p), "jtok")
+						kinit = kinit.Set("ro:"+kit.VarID(p), "jtok")
 					}
 				}
 			}
@@ -202,7 +264,7 @@ func c09JWT(c *kit.Ctx, a *c09Anchors) {
 			kst := kfl.st
 			kres := kfl.run(c, kinit)
 			nret := 0
-			badk := ""
+			badk, murkyk := "", ""
 			algInKey = true
 			for _, e := range kres.Exits {
 				if e.Return == nil || len(e.Return.Results) != 2 {
@@ -221,7 +283,11 @@ func c09JWT(c *kit.Ctx, a *c09Anchors) {
 					fld, _ = kit.ObjOf(kf.Info(), sel).(*types.Var)
 				}
 				if fld == nil || !fld.IsField() {
-					badk = "returns `" + kf.Str(e.Return.Results[0]) + "` instead of a key field"
+					if c09IsLiteralValue(kf.Info(), e.Return.Results[0]) {
+						badk = "returns the hard-coded value `" + kf.Str(e.Return.Results[0]) + "` instead of the instance key"
+					} else {
+						murkyk = "returns `" + kf.Str(e.Return.Results[0]) + "`, which is not a key field"
+					}
 					continue
 				}
 				if verifyKey != nil && verifyKey != fld {
@@ -232,8 +298,10 @@ func c09JWT(c *kit.Ctx, a *c09Anchors) {
 			switch {
 			case badk != "":
 				ok2.Violation("key function %s %s", kf.Name, badk)
+			case murkyk != "":
+				ok2.Undecided("key function %s %s", kf.Name, murkyk)
 			case nret == 0:
-				ok2.Violation("key function %s never returns a key", kf.Name)
+				ok2.Undecided("key function %s was not found to return a key", kf.Name)
 			}
 			if nret == 0 {
 				algInKey = false
@@ -242,6 +310,7 @@ func c09JWT(c *kit.Ctx, a *c09Anchors) {
 		res := fl.run(c, kit.NewS())
 		o := r3.Ob(f, parse, "validator truth", "answers true only for a verified token (jwt.Parse error nil / token.Valid) with Method.Alg() == \"HS256\"; the token is not dereferenced before the error test")
 		canTrue := false
+		truthMurky := false
 		bad := ""
 		var badExit kit.Exit
 		for _, e := range res.Exits {
@@ -270,6 +339,10 @@ func c09JWT(c *kit.Ctx, a *c09Anchors) {
 				if s.Get("a:alg") != "T" && !algInKey {
 					miss = append(miss, "alg == HS256 (neither here nor in the key function)")
 				}
+				if len(miss) > 0 && s.Get("a:perr") != "T" && (s.Get("opq:jtok") == "1" || s.Get("opq:perr") == "1") {
+					truthMurky = true // the token / error went through code that was not interpreted
+					continue
+				}
 				if len(miss) > 0 && bad == "" {
 					bad = "`" + f.Str(e.Return) + "` at " + f.At(e.Return) + " can answer true without: " + strings.Join(miss, ", ")
 					badExit = e
@@ -281,26 +354,33 @@ func c09JWT(c *kit.Ctx, a *c09Anchors) {
 			o.Violation("%s", derefBad)
 		case bad != "":
 			o.Violation("%s", bad).WithPath(res.PathTo(badExit))
+		case truthMurky || derefMurky:
+			o.Undecided("the parsed token or its error is handed to a function that was not interpreted before the verdict")
 		case !canTrue:
-			o.Violation("%s can never answer true: no issued token is accepted", f.Name)
+			o.Undecided("no exit of %s was found to answer true", f.Name)
 		default:
 			o.OK("every true answer carries: verified token ∧ alg == HS256")
 		}
 
 		// claim key read for the user id
-		ast.Inspect(f.Body, func(n ast.Node) bool {
-			ix, ok := n.(*ast.IndexExpr)
-			if !ok {
-				return true
+		for _, g := range c09Closure(f) {
+			if g.Body == nil {
+				continue
 			}
-			t := info.TypeOf(ix.X)
-			if nt, ok := types.Unalias(t).(*types.Named); ok && nt.Obj().Pkg() != nil && strings.HasPrefix(nt.Obj().Pkg().Path(), c09JWTPfx) {
-				if k, ok := kit.ConstString(info, ix.Index); ok {
-					readKeys = append(readKeys, k)
+			ast.Inspect(g.Body, func(n ast.Node) bool {
+				ix, ok := n.(*ast.IndexExpr)
+				if !ok {
+					return true
 				}
-			}
-			return true
-		})
+				t := info.TypeOf(ix.X)
+				if nt, ok := types.Unalias(t).(*types.Named); ok && nt.Obj().Pkg() != nil && strings.HasPrefix(nt.Obj().Pkg().Path(), c09JWTPfx) {
+					if k, ok := kit.ConstString(info, ix.Index); ok {
+						readKeys = append(readKeys, k)
+					}
+				}
+				return true
+			})
+		}
 		// keep the obligation open until the signing key is known
 		defer func(o *kit.Ob, f *kit.Func) {
 			if o.Status != "open" {
@@ -332,18 +412,28 @@ func c09JWT(c *kit.Ctx, a *c09Anchors) {
 		info := f.Info()
 		_, reqP := a.handlerParams(f)
 		readsHeader := false
-		for _, call := range f.AllCalls(false) {
-			if kit.CallIs(info, call, c09HTTP+".(Header).Get") && len(call.Args) == 1 {
-				if k, ok := kit.ConstString(info, call.Args[0]); ok && strings.EqualFold(k, "Authorization") {
-					if sel, ok := ast.Unparen(call.Fun).(*ast.SelectorExpr); ok {
-						if hs, ok := ast.Unparen(sel.X).(*ast.SelectorExpr); ok && reqP != nil && kit.ObjOf(info, hs.X) == types.Object(reqP) {
-							readsHeader = true
-						}
+		_ = reqP
+		for _, g := range c09Closure(f) {
+			if g.Body == nil {
+				continue
+			}
+			for _, call := range g.AllCalls(true) {
+				if kit.CallIs(info, call, c09HTTP+".(Header).Get") && len(call.Args) == 1 {
+					if k, ok := kit.ConstString(info, call.Args[0]); ok && strings.EqualFold(k, "Authorization") {
+						readsHeader = true
 					}
 				}
 			}
 		}
 		fl := newC09Flow(f)
+		fl.inline = func(cf *kit.Func, call *ast.CallExpr) bool {
+			for _, p := range a.parseFns {
+				if p == cf {
+					return false
+				}
+			}
+			return true
+		}
 		fl.roles = func(call *ast.CallExpr) []string {
 			cf := f.CalleeFunc(call)
 			for _, p := range a.parseFns {
@@ -353,6 +443,7 @@ func c09JWT(c *kit.Ctx, a *c09Anchors) {
 			}
 			return nil
 		}
+		oddBearer := false
 		fl.atom = func(e ast.Expr, s kit.S) (string, bool, bool) {
 			if x, y, op, ok := kit.CmpAtom(e); ok && (op == token.EQL || op == token.NEQ) {
 				for _, z := range []ast.Expr{x, y} {
@@ -361,6 +452,17 @@ func c09JWT(c *kit.Ctx, a *c09Anchors) {
 					}
 				}
 			}
+			// any other test that names the scheme: not understood
+			ast.Inspect(e, func(n ast.Node) bool {
+				if x, ok := n.(ast.Expr); ok {
+					if v, ok := kit.ConstString(info, x); ok && strings.EqualFold(strings.TrimSpace(v), "Bearer") {
+						if call, isCall := ast.Unparen(e).(*ast.CallExpr); !isCall || !kit.CallIs(info, call, "strings.EqualFold", "strings.HasPrefix") {
+							oddBearer = true
+						}
+					}
+				}
+				return true
+			})
 			// strings.EqualFold(x, "Bearer") / strings.HasPrefix(h, "Bearer ")
 			if call, ok := ast.Unparen(e).(*ast.CallExpr); ok && len(call.Args) == 2 && kit.CallIs(info, call, "strings.EqualFold", "strings.HasPrefix") {
 				for _, z := range call.Args {
@@ -404,6 +506,10 @@ func c09JWT(c *kit.Ctx, a *c09Anchors) {
 				if s.Get("a:vt") != "T" {
 					miss = append(miss, "the JWT validator's answer")
 				}
+				if len(miss) > 0 && s.Get("opq:vt") == "1" {
+					o.Undecided("the JWT validator's answer is handed to a function that was not interpreted")
+					continue
+				}
 				if len(miss) > 0 && bad == "" {
 					bad = "`" + f.Str(e.Return) + "` at " + f.At(e.Return) + " can answer true without: " + strings.Join(miss, ", ")
 				}
@@ -411,11 +517,13 @@ func c09JWT(c *kit.Ctx, a *c09Anchors) {
 		}
 		switch {
 		case !readsHeader:
-			o.Violation("%s never reads the Authorization header of its request", f.Name)
+			o.Undecided("%s and the functions it calls were not found to read the Authorization header", f.Name)
+		case bad != "" && oddBearer:
+			o.Undecided("%s — but the scheme is tested by an expression that was not understood", bad)
 		case bad != "":
 			o.Violation("%s", bad)
 		case !canTrue:
-			o.Violation("%s can never answer true", f.Name)
+			o.Undecided("no exit of %s was found to answer true", f.Name)
 		default:
 			o.OK("true only under scheme == \"Bearer\" ∧ validator result")
 		}
@@ -436,8 +544,14 @@ func c09JWT(c *kit.Ctx, a *c09Anchors) {
 			oAlg.Undecided("no signing method argument")
 		} else if v, ok := kit.ObjOf(info, mk.Args[0]).(*types.Var); ok && v.Pkg() != nil && strings.HasPrefix(v.Pkg().Path(), c09JWTPfx) && v.Name() == "SigningMethodHS256" {
 			oAlg.OK("jwt.SigningMethodHS256")
+		} else if v, ok := kit.ObjOf(info, c09LocalDef(f, mk.Args[0])).(*types.Var); ok && v.Pkg() != nil && strings.HasPrefix(v.Pkg().Path(), c09JWTPfx) {
+			if v.Name() == "SigningMethodHS256" {
+				oAlg.OK("jwt.SigningMethodHS256")
+			} else {
+				oAlg.Violation("tokens are signed with `%s`; the validator only accepts HS256, so issued tokens would be refused (or another algorithm accepted)", f.Str(mk.Args[0]))
+			}
 		} else {
-			oAlg.Violation("tokens are signed with `%s`; the validator only accepts HS256, so issued tokens would be refused (or another algorithm accepted)", f.Str(mk.Args[0]))
+			oAlg.Undecided("cannot relate the signing method `%s` to a method of the JWT library", f.Str(mk.Args[0]))
 		}
 		// signing key
 		for _, call := range f.AllCalls(false) {
@@ -451,8 +565,8 @@ func c09JWT(c *kit.Ctx, a *c09Anchors) {
 		oExp := r3.Ob(f, mk, "expiry", "issued tokens carry an expiry in the future (time.Now().Add(d), constant d > 0)")
 		oUID := r3.Ob(f, mk, "user id claim", "the claim the validator reads the user id from is filled from the issuer's user id parameter")
 		if len(mk.Args) < 2 {
-			oExp.Violation("token is created without claims: it never expires and carries no user id")
-			oUID.Violation("token is created without claims")
+			oExp.Undecided("token is created by `%s` without a claims argument", f.Str(mk))
+			oUID.Undecided("token is created by `%s` without a claims argument", f.Str(mk))
 			continue
 		}
 		lit, _ := ast.Unparen(c09LocalDef(f, mk.Args[1])).(*ast.CompositeLit)
@@ -463,6 +577,29 @@ func c09JWT(c *kit.Ctx, a *c09Anchors) {
 			oExp.Undecided("claims `%s` are not a composite literal", f.Str(mk.Args[1]))
 			oUID.Undecided("claims `%s` are not a composite literal", f.Str(mk.Args[1]))
 			continue
+		}
+		// claims filled after the literal (`claims.ExpiresAt = …`, `claims["exp"] = …`)
+		laterSet := false
+		if cv := kit.ObjOf(info, mk.Args[1]); cv != nil {
+			ast.Inspect(f.Body, func(n ast.Node) bool {
+				as, ok := n.(*ast.AssignStmt)
+				if !ok {
+					return true
+				}
+				for _, l := range as.Lhs {
+					switch x := ast.Unparen(l).(type) {
+					case *ast.SelectorExpr:
+						if kit.ObjOf(info, x.X) == cv {
+							laterSet = true
+						}
+					case *ast.IndexExpr:
+						if kit.ObjOf(info, x.X) == cv {
+							laterSet = true
+						}
+					}
+				}
+				return true
+			})
 		}
 		claim := map[string]ast.Expr{} // JSON claim name -> value
 		if st, ok := info.TypeOf(lit).Underlying().(*types.Struct); ok {
@@ -488,7 +625,9 @@ func c09JWT(c *kit.Ctx, a *c09Anchors) {
 			}
 		}
 		// expiry
-		if ev, ok := claim["exp"]; !ok {
+		if ev, ok := claim["exp"]; !ok && laterSet {
+			oExp.Undecided("the claims literal of %s sets no `exp`, but the claims are modified after the literal", f.Name)
+		} else if !ok {
 			oExp.Violation("the claims of %s set no `exp`: issued tokens never expire", f.Name)
 		} else {
 			// the value, with local variables replaced by their definitions
@@ -513,7 +652,7 @@ func c09JWT(c *kit.Ctx, a *c09Anchors) {
 						if sel == nil {
 							return true
 						}
-						if now, ok := ast.Unparen(sel.X).(*ast.CallExpr); ok && kit.CallIs(info, now, "time.Now") {
+						if now, ok := ast.Unparen(c09LocalDef(f, sel.X)).(*ast.CallExpr); ok && kit.CallIs(info, now, "time.Now") {
 							if d, ok := kit.ConstInt(info, y.Args[0]); ok {
 								if d > 0 {
 									verdict = "future"
@@ -580,6 +719,8 @@ func c09JWT(c *kit.Ctx, a *c09Anchors) {
 				})
 			}
 			switch {
+			case !ok && laterSet:
+				oUID.Undecided("the claims literal of %s does not set %q, but the claims are modified after the literal", f.Name, rk[0])
 			case !ok:
 				oUID.Violation("the validator reads the user id from claim %q, which %s does not set", rk[0], f.Name)
 			case !isParam:
